@@ -24,16 +24,24 @@ Open Scope string_scope.
 
 (* ---- the round trip through the tree printer BY INDUCTION on the term (no bound on size or depth).
    1. the reader's stack machine does what the recursive reading [elab] does, for every
-      s-expression built from atoms and applications, whatever the stack and the state;
+      s-expression built from atoms, applications of table operators / function names,
+      quantifiers (forall / exists with any binder list) and applications of an indexed identifier
+      ((_ extract i j) x), whatever the stack and the state;
    2. [elab] of the print-out of t returns t when every node of t satisfies the local condition
       [node_ok] (one node and its arguments: the parser's constructor for the printed head rebuilds
       the node; a symbol is declared with its sort; an Int constant's token is not a declared name);
    3. hence read_back print_tree t = Ok (ITerm t), when moreover no printed token needs quoting.
    The local condition follows from typing for and, or, not, =>, <-> / = (Iff, Equals), ite, +, *, -,
-   <=, <, uninterpreted functions and the non-indexed bit-vector operators (proofs/RoundTrip_ind.v,
-   the node_ok lemmas); Int constants of any size are read back by Numeral_proofs.literal_numeral.
-   Not yet in the inductive fragment (still covered by the bounded families below and by the
-   correspondence): quantifiers, indexed operators, Real / BV / String constants, array values,
+   <=, <, uninterpreted functions, the non-indexed bit-vector operators and the indexed ones (extract,
+   rotate_left / rotate_right, zero_extend / sign_extend; side condition: int() reads str(k) back as k,
+   closed and decidable per index) (proofs/RoundTrip_ind.v, the node_ok lemmas); Int constants of any
+   size are read back by Numeral_proofs.literal_numeral; bit-vector and Real constants (#b.., n.0,
+   (/ n.0 d.0), (- ..)) are leaves of the fragment under local lexical hypotheses on their own tokens
+   (bv_leaf_ok / real_leaf_ok: closed, proved by computation for a concrete constant - see
+   C09_roundtrip_tree_constants_example).
+   Not yet in the inductive ROUND TRIP (still covered by the bounded families below and by the
+   correspondence): quantifiers (the machine lemma covers them; the round trip needs the binder scan
+   on printed sorts and a stack invariant of the cache), String constants, array values,
    names that need quoting. *)
 Theorem C09_machine_simple : forall x, simpleb x = true ->
   forall fuel' stk s i s' rest,
@@ -43,13 +51,20 @@ Proof. exact machine_simple. Qed.
 Print Assumptions C09_machine_simple.
 
 Theorem C09_elab_print : forall D t, rt D t ->
-  forall s, inv D s -> exists s', elab (print_tree t) s = ROk (ITerm t) s' /\ inv D s'.
+  forall s rest, inv D s -> toks s = (flatten (print_tree t) ++ rest)%list ->
+    exists s', elab (print_tree t) s = ROk (ITerm t) s' /\ inv D s' /\ toks s' = rest.
 Proof. exact elab_print. Qed.
 
 Theorem C09_roundtrip_tree_partial : forall t,
   rt (D_of t) t -> all_plain (print_tree t) = true -> read_back print_tree t = Ok (ITerm t).
 Proof. exact roundtrip_tree_partial. Qed.
 Print Assumptions C09_roundtrip_tree_partial.
+
+Theorem C09_roundtrip_tree_indexed_example : read_back print_tree ex_bv = Ok (ITerm ex_bv).
+Proof. exact ex_bv_roundtrip. Qed.
+
+Theorem C09_roundtrip_tree_constants_example : read_back print_tree ex_const = Ok (ITerm ex_const).
+Proof. exact ex_const_roundtrip. Qed.
 
 Theorem C09_roundtrip_tree_partial_hypotheses_satisfiable :
   rt (D_of ex_term) ex_term /\ all_plain (print_tree ex_term) = true.
@@ -92,3 +107,13 @@ Theorem C09_hr_roundtrip_partial :
                (is_and t = true -> vbool (eval I t') = vbool (eval I t)).
 Proof. exact hr_roundtrip_partial. Qed.
 Print Assumptions C09_hr_roundtrip_partial.
+
+(* ---- the case analysis of the HR printer model is the dispatch of the source (gen/Operators.v, gen/Dispatch.v are
+   REGENERATED from pysmt/operators.py and pysmt/printers.py on every run; qualified names only) *)
+From PySMT.gen Require Operators Dispatch.
+From PySMT.proofs Require Operators_proofs Dispatch_common Dispatch_hrprinter_proofs.
+Theorem C09_hrprinter_dispatch_matches_source :
+  (forall n, Dispatch.hrprinter_dispatch n = Dispatch_hrprinter_proofs.hr_expected n) /\
+  (forall o sep a, Dispatch.hrprinter_nary_symbol (Operators.nt_of_op o) = Some sep -> hr_node o a = nary sep a).
+Proof. exact (conj Dispatch_hrprinter_proofs.hrprinter_dispatch_matches_source Dispatch_hrprinter_proofs.hrprinter_separators_match_source). Qed.
+Print Assumptions C09_hrprinter_dispatch_matches_source.
